@@ -39,6 +39,9 @@ CHECKS = {
  "C32": ("exploration", "model-based run-time monitor: set model of two relations checked after every write, reports parsed from API returns and handler messages",
          "held on every generated history of the run: dumps are duplicate-free and equal the set model after every step; insert/delete/conditional-delete/update reports equal the model's counts",
          "trusted: the harness's own evaluation of 9 condition/update templates", "3/C32"),
+ "C33": ("exploration", "model-based run-time monitor: conformance oracle on the dump and on session answers after every write through every write path",
+         "held on every generated schema/history of the run apart from the listed known findings (session-fact paths, schema declared over non-conforming data): stored tuples conform, non-conforming batches leave the relation unchanged, conforming batches are stored",
+         "trusted: the harness's conformance table (int, float<-int, string, bool, vector)", "3/C33"),
 }
 NOT_YET = "monitor not built yet in this round (design in DESIGN.md section 3); not claimed until a check exists"
 
